@@ -29,6 +29,7 @@ docstring) maps every generated location to a path in the temp tree; see
 '''
 
 import os
+import shutil
 import stat
 import threading as mt
 import collections
@@ -137,71 +138,7 @@ DEFAULT_LOC = {('in',  'src'): 'client', ('in',  'tgt'): 'task',
 #
 # harness objects
 #
-_RCFGS = None
-
-
-def _rcfgs():
-    '''resource configs, loaded the way Session._init_cfg_from_scratch does'''
-    global _RCFGS
-    if _RCFGS is None:
-        from radical.pilot.resource_config import ResourceConfig
-        raw    = ru.Config('radical.pilot.resource', name='*', expand=False)
-        _RCFGS = ru.Config()
-        for site in raw:
-            _RCFGS[site] = ru.Config()
-            for res, rcfg in raw[site].items():
-                _RCFGS[site][res] = ResourceConfig(rcfg)
-    return _RCFGS
-
-
-class HSession(rp.Session):
-    '''
-    rp.Session with only the constructor replaced: the sandbox and resource
-    config methods which the tmgr scheduler and the stagers call are the real
-    ones.
-    '''
-
-    def __init__(self, uid, client_sandbox, reg, path):          # noqa
-        self._uid   = uid
-        self._role  = self._DEFAULT
-        self._reg   = reg
-        self._cfg   = ru.Config(from_dict={'sid'           : uid,
-                                           'path'          : path,
-                                           'reg_addr'      : 'mem://reg',
-                                           'client_sandbox': client_sandbox})
-        self._rcfgs = _rcfgs()
-        self._rcfg  = ru.Config()
-        self._log   = NullLog()
-        self._prof  = NullProf()
-        self._rep   = NullProf()
-        self._tmgrs = dict()
-        self._pmgrs = dict()
-        self._closed = False
-        self.logs   = list()
-
-        # as in Session.__init__
-        self._cache_lock = ru.RLock()
-        self._cache      = {'endpoint_fs'      : dict(),
-                            'resource_sandbox' : dict(),
-                            'session_sandbox'  : dict(),
-                            'pilot_sandbox'    : dict(),
-                            'client_sandbox'   : self._cfg.client_sandbox,
-                            'js_shells'        : dict(),
-                            'fs_dirs'          : dict()}
-
-    def _get_logger(self, name, level=None, debug=None):
-        log = NullLog()
-        self.logs.append((name, log))
-        return log
-
-    def _get_profiler(self, name):
-        return NullProf()
-
-    def _get_reporter(self, name):
-        return NullProf()
-
-    def close(self, *args, **kwargs):
-        pass
+from ..harness import RealSession as HSession, _rcfgs      # noqa
 
 
 # ------------------------------------------------------------------------------
@@ -1359,6 +1296,147 @@ def structure(case):
     return [out, case['cut']]
 
 
+# ------------------------------------------------------------------------------
+# pilot level: Pilot.stage_in / Pilot.stage_out through the pilot manager's
+# real stager, several pilots of one manager in one process
+#
+def pilot_staging_history(rng, res, workdir, idx):
+
+    import tempfile
+    from ..harness import make_pmgr, make_pilot
+    from radical.pilot.utils.staging_helper import StagingHelper
+
+    root = tempfile.mkdtemp(prefix='pst%05d.' % idx, dir=workdir)
+    try:
+        _pilot_staging_history(rng, res, root, make_pmgr, make_pilot,
+                               StagingHelper)
+    finally:
+        shutil.rmtree(root, ignore_errors=True)
+
+
+def _pilot_staging_history(rng, res, root, make_pmgr, make_pilot,
+                           StagingHelper):
+
+    pm = make_pmgr()
+    pm._stager = StagingHelper(pm._log)
+    client = os.path.join(root, 'client')
+    os.makedirs(client)
+    n_pilots = rng.choice([1, 2, 2, 3])
+    pilots = list()
+    for i in range(n_pilots):
+        pl  = make_pilot(pm, 'pilot.%04d' % i)
+        psb = os.path.join(root, 'rsb', 'sess', pl.uid)
+        os.makedirs(psb)
+        pl._resource_sandbox = ru.Url('file://localhost%s/rsb' % root)
+        pl._session_sandbox  = ru.Url('file://localhost%s/rsb/sess' % root)
+        pl._pilot_sandbox    = ru.Url('file://localhost%s' % psb)
+        pl._client_sandbox   = ru.Url('file://localhost%s' % client)
+        pl._endpoint_fs      = ru.Url('file://localhost/')
+        # as Pilot.__init__ builds them
+        pl._rem_ctx = {'pwd'     : pl._pilot_sandbox,
+                       'client'  : pl._client_sandbox,
+                       'pilot'   : pl._pilot_sandbox,
+                       'resource': pl._resource_sandbox,
+                       'session' : pl._session_sandbox,
+                       'endpoint': pl._endpoint_fs}
+        pl._loc_ctx = dict(pl._rem_ctx, pwd=pl._client_sandbox)
+        # what the agent collected for the application
+        with open(os.path.join(psb, 'staging_output.tgz'), 'w') as f:
+            f.write('collected output of %s\n' % pl.uid)
+        pilots.append((pl, psb))
+
+    ops  = list()
+    case = {'pilots': n_pilots, 'ops': ops}
+    where = {'pilot': None, 'session': os.path.join(root, 'rsb', 'sess'),
+             'resource': os.path.join(root, 'rsb'), 'client': client}
+
+    def read(path):
+        try:
+            with open(path) as f:
+                return f.read()
+        except OSError as e:
+            return '<%s>' % e.__class__.__name__
+
+    for k in range(rng.randint(2, 8)):
+        pl, psb = rng.choice(pilots)
+        kind = rng.choice(['in', 'in', 'out_default', 'out_default', 'out'])
+        tag  = '%s.%d' % (pl.uid, k)
+        res.count('pilot_staging_calls')
+        if kind == 'in':
+            name, data = 'in.%s.dat' % tag, 'input %s\n' % tag
+            with open(os.path.join(client, name), 'w') as f:
+                f.write(data)
+            src = rng.choice([name, 'client:///' + name,
+                              os.path.join(client, name),
+                              'file://localhost' + os.path.join(client, name)])
+            side = rng.choice(['pwd', 'pilot', 'pilot', 'session', 'resource'])
+            tname = rng.choice([name, 'renamed.%s' % tag, 'sub/dir/%s' % name])
+            tgt  = tname if side == 'pwd' else '%s:///%s' % (side, tname)
+            base = psb if side in ('pwd', 'pilot') else where[side]
+            form = rng.choice(['dict', 'dict', 'string', 'list'])
+            sd   = {'source': src, 'target': tgt, 'action': rp.TRANSFER}
+            arg  = sd if form == 'dict' else [sd] if form == 'list' else \
+                   '%s > %s' % (src, tgt)
+            ops.append(['stage_in', pl.uid, src, tgt, form])
+            try:
+                if form == 'string':
+                    # string forms are expanded by the manager, the pilot
+                    # needs dicts: the documented call is with directives
+                    arg = sd
+                ret = pl.stage_in(arg)
+            except Exception as e:
+                res.violation('pilot-stage-in-raised', '%s: %r' % (ops[-1], e),
+                              case)
+                return
+            want = os.path.join(base, tname)
+            got  = read(want)
+            if got != data:
+                res.violation('pilot-stage-in-target-wrong', '%s: %s holds %r'
+                              % (ops[-1], want, got), case)
+                return
+            if [ru.Url(r).path for r in ret] != [want]:
+                res.violation('pilot-stage-in-return-value', '%s: returned %s, '
+                              'data is at %s' % (ops[-1], ret, want), case)
+                return
+        else:
+            if kind == 'out_default':
+                arg, sname, tname = None, 'staging_output.tgz', \
+                                          'staging_output.tgz'
+                data = 'collected output of %s\n' % pl.uid
+            else:
+                sname, tname = 'res.%s.dat' % tag, 'fetched.%s.dat' % tag
+                data = 'result %s\n' % tag
+                with open(os.path.join(psb, sname), 'w') as f:
+                    f.write(data)
+                arg = {'source': rng.choice(['pilot:///' + sname, sname]),
+                       'target': rng.choice(['client:///' + tname, tname]),
+                       'action': rp.TRANSFER}
+                if rng.random() < 0.3:
+                    arg = [arg]
+            ops.append(['stage_out', pl.uid, kind])
+            try:
+                ret = pl.stage_out(arg) if arg is not None else \
+                      rng.choice([pl.stage_out, lambda: pl.stage_out(None),
+                                  lambda: pl.stage_out([])])()
+            except Exception as e:
+                res.violation('pilot-stage-out-raised', '%s: %r'
+                              % (ops[-1], e), case)
+                return
+            want = os.path.join(client, tname)
+            got  = read(want)
+            if got != data:
+                res.violation('pilot-stage-out-target-wrong', '%s: %s holds '
+                              '%r, the data of %s is %r'
+                              % (ops[-1], want, got, pl.uid, data), case)
+                return
+            if [ru.Url(r).path for r in ret] != [want]:
+                res.violation('pilot-stage-out-return-value', '%s: returned '
+                              '%s, data is at %s' % (ops[-1], ret, want), case)
+                return
+            if kind == 'out_default':
+                res.count('pilot_default_stage_outs')
+
+
 def run(ctx):
 
     res = Result()
@@ -1366,7 +1444,14 @@ def run(ctx):
 
     check_url_rules(res, ctx.rng('urls'))
 
-    n = ctx.n(640, 40000)
+    prng = ctx.rng('pilot-staging')
+    for i in range(ctx.n(480, 30000)):
+        pilot_staging_history(prng, res, ctx.workdir, i)
+        res.evaluations += 1
+        if len(res.violations) > 20:
+            break
+
+    n = ctx.n(640, 120000)
     for i in range(n):
         case = gen_case(rng, '%d.%d' % (ctx.shard, i))
         res.evaluations += 1
